@@ -21,6 +21,7 @@ from __future__ import annotations
 
 import io
 import lzma
+import math
 import struct
 import zipfile
 from typing import Any, Dict, List, Optional, Tuple
@@ -86,6 +87,11 @@ def sprp_versions_for(layout: str) -> List[str]:
 
 
 # ------------------------------------------------------------------------------------------------ numbers
+def signed_zeros(v: Any) -> list:
+    """Position components with the sign of a zero made visible to == (a negative zero becomes the string '-0.0')."""
+    return ['-0.0' if (c == 0 and math.copysign(1.0, c) < 0) else c for c in v]
+
+
 def f32(x: float) -> float:
     v = struct.unpack('<f', struct.pack('<f', x))[0]
     return v + 0.0 if v != 0 else 0.0
@@ -627,6 +633,15 @@ def gen_world(rng, layout: str, **opt: Any) -> dict:
     if zero_vertex:
         zpos = rng.randrange(len(verts) + 1)
         verts.insert(zpos, [0.0, 0.0, 0.0])
+    if opt.get('zero_signs', rng.random() < 0.5):
+        # both signs of zero in positions that are otherwise equal (-0.0 == 0.0 and they hash alike, yet they are different
+        # float32 values on disk)
+        y, z = rfloat(rng), rfloat(rng)
+        pair = [[-0.0, y, z], [0.0, y, z]]
+        if rng.random() < 0.5:
+            pair.reverse()
+        verts.extend(pair)
+        W['zero_signs'] = True
     W['vertexes'] = verts
     W['zero_vertex'] = zero_vertex
     n_edges = cnt(0, 4)
@@ -669,6 +684,9 @@ def gen_world(rng, layout: str, **opt: Any) -> dict:
     vit = L['kind'] == 'vitamin'
     W['primitives'] = [] if vit else [{'type': rng.randrange(2), 'indices': [rng.choice((0, 1, 5, imax, rng.randrange(imax))) for _ in range(rng.randint(0, 5))],
                         'verts': [rvec(rng) for _ in range(rng.randint(0, 3))]} for _ in range(cnt(0, 2))]
+    if W.get('zero_signs') and W['primitives']:
+        y, z = rfloat(rng), rfloat(rng)
+        W['primitives'][rng.randrange(len(W['primitives']))]['verts'].extend([[0.0, y, z], [-0.0, y, z], list(W['vertexes'][-1])])
     # faces
     n_orig = 0 if vit else cnt(0, 3)
     W['orig_faces'] = [gen_face(rng, L, W, -1) for _ in range(n_orig)]
@@ -1214,9 +1232,9 @@ def expected(W: dict) -> dict:
                              'texdata': tdno.setdefault(t['texdata'], len(tdno)), 'mat': W['texstrings'][td['name']],
                              'refl': list(td['refl']), 'w': td['w'], 'h': td['h']})
     C['planes'] = [[*p['normal'], p['dist'], p['type']] for p in W['planes']]
-    C['vertexes'] = [list(v) for v in W['vertexes']]
+    C['vertexes'] = [signed_zeros(v) for v in W['vertexes']]
     C['surfedges'] = surf
-    C['primitives'] = [[p['type'], list(p['indices']), [list(v) for v in p['verts']]] for p in W['primitives']]
+    C['primitives'] = [[p['type'], list(p['indices']), [signed_zeros(v) for v in p['verts']]] for p in W['primitives']]
     C['orig_faces'] = [_exp_face(W, f, 'orig', i, surf) for i, f in enumerate(W['orig_faces'])]
     C['faces'] = [_exp_face(W, f, 'ldr', i, surf) for i, f in enumerate(W['faces'])]
     C['hdr_faces'] = [_exp_face(W, f, 'hdr', i, surf) for i, f in enumerate(W['hdr_faces'])]
@@ -1405,14 +1423,14 @@ def dump_bsp(bsp: Any) -> dict:
                              'flags': t.flags.value, 'texdata': tdno.setdefault(id(td), len(tdno)), 'mat': td.mat,
                              'refl': _v(td.reflectivity), 'w': td.width, 'h': td.height})
     C['planes'] = [[*_v(p.normal), p.dist, p.type.value] for p in bsp.planes]
-    C['vertexes'] = [_v(v) for v in bsp.vertexes]
+    C['vertexes'] = [signed_zeros(_v(v)) for v in bsp.vertexes]
     eno: Dict[int, int] = {}
     C['surfedges'] = []
     for e in bsp.surfedges:
         rev = type(e).__name__ == 'RevEdge'
         base = e.opposite if rev else e
         C['surfedges'].append([_ix(vert_ix, e.a, 'vertex'), _ix(vert_ix, e.b, 'vertex'), rev, eno.setdefault(id(base), len(eno))])
-    C['primitives'] = [[int(p.is_tristrip), list(p.indexed_verts), [_v(v) for v in p.verts]] for p in bsp.primitives]
+    C['primitives'] = [[int(p.is_tristrip), list(p.indexed_verts), [signed_zeros(_v(v)) for v in p.verts]] for p in bsp.primitives]
 
     def face(f: Any) -> dict:
         return {
